@@ -33,7 +33,7 @@ Definition add_func (n : ds) (f : func) : ds :=
 Definition ident_events (st : istate) (evs : list bevent) : istate :=
   fold_left (fun s e =>
                match e with
-               | EReturn text => mkI (i_node s) (i_nodes s) (set_retnull (i_method s) (contains text "null"))
+               | EReturn _ nulltok => mkI (i_node s) (i_nodes s) (set_retnull (i_method s) (f_retnull (i_method s) || nulltok))
                                      (i_hasEnterClass s) (i_imports s) (i_override s)
                | _ => s
                end) evs st.
